@@ -38,13 +38,14 @@ Inductive rd :=
 | Data (bs : list N) | Zero | DataEOF (bs : list N) | Fail (k : fkind)
 | DataFail (bs : list N) (k : fkind).
 
-(* Error classes: never error texts.  [EEOF] is the io.EOF VALUE (err == io.EOF). *)
-Inductive err := ENil | EEOF | EFail (k : fkind) | ETooLarge | EClosedPipe | EWriter.
+(* Error classes: never error texts.  [EEOF] is the io.EOF VALUE (err == io.EOF).
+   [EPanic]: the call did not return - it panicked. *)
+Inductive err := ENil | EEOF | EFail (k : fkind) | ETooLarge | EClosedPipe | EWriter | EPanic.
 
 Definition err_eqb (a b : err) : bool :=
   match a, b with
   | ENil, ENil | EEOF, EEOF | ETooLarge, ETooLarge
-  | EClosedPipe, EClosedPipe | EWriter, EWriter => true
+  | EClosedPipe, EClosedPipe | EWriter, EWriter | EPanic, EPanic => true
   | EFail j, EFail k => fkind_eqb j k
   | _, _ => false
   end.
